@@ -166,6 +166,7 @@ def loop_block(
     exit_node: bool | None = None,
     signal: bool | None = None,
     default_open: bool | None = None,
+    late: bool | None = None,
 ) -> dict:
     """Ring loop: b0..b{L-1} pass state s0..s{L-1}; the last body node increments and
     produces s0 again; gate g continues while s0 < N (targets b0 / END or an exit node).
@@ -176,7 +177,8 @@ def loop_block(
     exit_node = rng.random() < 0.5 if exit_node is None else exit_node
     signal = rng.random() < 0.3 if signal is None else signal
     default_open = rng.random() < 0.7 if default_open is None else default_open
-    if signal:
+    late = (signal and rng.random() < 0.4) if late is None else (late and signal)
+    if signal and not late:
         default_open = True  # closed gate waiting on its own targets' signal cannot start (excluded, DESIGN C04)
     s = [f"{prefix}s{i}" for i in range(L)]
     nodes: list[dict] = []
@@ -190,9 +192,12 @@ def loop_block(
             "beh": "inc" if last else "pass",
             "beh_param": s[i],
         }
-        if last and signal:
+        if last and signal and not late:
             nd["emit"] = [f"{prefix}done"]
         nodes.append(nd)
+    if late:
+        # the end-of-iteration signal is emitted by a separate node one step AFTER the state changed
+        nodes.append({"kind": "fn", "name": f"{prefix}sg", "params": [{"name": s[0]}], "outs": [], "emit": [f"{prefix}done"]})
     tgt_exit = f"{prefix}fin" if exit_node else "@END"
     g = {
         "name": f"{prefix}g",
@@ -210,7 +215,7 @@ def loop_block(
     nodes.append(g)
     if exit_node:
         nodes.append({"kind": "fn", "name": f"{prefix}fin", "params": [{"name": s[0]}], "outs": [f"{prefix}out"]})
-    return {"nodes": nodes, "seed": s[0], "L": L, "N": N, "gate": gate, "exit": exit_node, "signal": signal, "open": default_open, "state": s, "prefix": prefix}
+    return {"nodes": nodes, "seed": s[0], "L": L, "N": N, "gate": gate, "exit": exit_node, "signal": signal, "open": default_open, "state": s, "prefix": prefix, "late": late}
 
 
 # --------------------------------------------------------- general programs
